@@ -97,7 +97,7 @@ PROPS["C02"] = {
     "cli": False, "trusted_base": COORD_TB, "modelled": COORD_MODELLED,
     "level_text": 'Lean theorems over the coordinator + worker model, for every dependency graph, every interleaving of begin/finish/deliver steps, every thread count and every initial content of the outputs: a final pass is in flight only after all its dependencies finished; finished files are never touched again; at a successful exit every output is the complete sequential value, the unique solution of out f = render f out; any two successful executions (schedules, thread counts, stale outputs) finish the same files with the same contents (schedule_independent); in a first pass, meeting an include/after of a generated file switches to collect mode and from then on nothing is executed or written (commands after a dependency run only in the second pass). The real coordinator is driven through ALL delivery orders of every acyclic digraph on <= 4 files with stale outputs on disk and alias spellings, and its trace (incl. the done/total counters), bytes and marker order are compared on every run.',
     "design_ref": "5 C02, 4.7",
-    "level_note": "Partial: interleavings of individual file-system calls below task granularity are not modelled; the schedule controller serialises deliveries (it explores all delivery orders, not all preemption points).",
+    "level_note": "Partial: interleavings of individual file-system calls below task granularity are not modelled; the schedule controller serialises deliveries (it explores all delivery orders, not all preemption points). The coordinator theorems also hold with results that depend on the file system at the moment of the pass (FReach: every execution with free, well-typed results is an execution of a static world; final_pass_after_dependencies_free_results), of which the concrete reference run is an instance; its trace (runProjectT) is compared with the deliveries of a real single-threaded run by the trace job. That all orders leave the same bytes is proved over the abstract worker model only.",
     "technique": "Lean 4 proof (inductive invariant + refinement to sequential build) + exhaustive schedule exploration as correspondence",
     "assumptions": ["commands terminate; a pass reads only its declared dependencies (RenderLocal)"],
 }
@@ -106,7 +106,7 @@ PROPS["C03"] = {
     "cli": True, "trusted_base": COORD_TB, "modelled": COORD_MODELLED,
     "level_text": "Lean theorems: done == total iff nothing is in flight; no deadlock; at most 2|U| deliveries over any finite universe (termination under every schedule, cyclic or not); success implies every seen file finished; finished list, seen list and pool are duplicate-free and a finished file never gets a task again (exactly once); the unwrap in notify_finish cannot fail; with directory scan tasks: the exit test on the shared counters holds iff neither a file task nor a scan is in flight, every directory is scanned at most once (also under symbolic-link loops), and files found by scanning obey the same invariant. All delivery orders of all digraphs (cyclic included) on <= 3 files with duplicate inputs are explored on the real coordinator; task starts and command markers are counted.",
     "design_ref": "5 C03, 4.7",
-    "level_note": "The delivery bound is stated relative to the number of files ever seen and the number of distinct directories; path aliases are exercised end to end (schedule worlds spell files in several ways; C11).",
+    "level_note": "The delivery bound is stated relative to the number of files ever seen and the number of distinct directories; path aliases are exercised end to end (schedule worlds spell files in several ways; C11). For the concrete run (real passes over the model file system, results depending on the file system) the same facts are proved over its trace, for the reference order and for every delivery order (whole_run_never_panics, concrete_success_means_completion, concrete_run_budget, every_delivery_order_concrete); that the fuel of the reference model never runs out is bounded by the number of names, not proved outright. The trace job compares the model's trace with the deliveries of a real single-threaded run; the big job runs 700 sources with failing ones through the CLI under a watchdog.",
     "technique": "Lean 4 proof (accounting invariant + step-counting termination) + exhaustive schedule exploration as correspondence",
     "assumptions": ["commands terminate", "no worker thread panics (C18)"],
 }
@@ -115,7 +115,7 @@ PROPS["C05"] = {
     "cli": False, "trusted_base": COORD_TB, "modelled": COORD_MODELLED,
     "level_text": "Lean theorems: at quiescence every still-waiting file reaches a dependency cycle (so acyclic projects never get the circular failure), finished files cannot reach a cycle (so a required cyclic file never yields success), every seen file that cannot reach a cycle is finished with the complete sequential output, and the delivery bound does not need acyclicity (never hangs). Explored on the real coordinator over all digraphs with self-loops on <= 3 files, all delivery orders.",
     "design_ref": "5 C05, 4.7",
-    "level_note": "As C02/C03.",
+    "level_note": "As C02/C03. For the concrete run: concrete_circular_verdict_has_a_cycle (a circular verdict is justified by a cycle among the dependency lists the first passes of that very run reported), also for every delivery order (C03.every_delivery_order_concrete).",
     "technique": "Lean 4 proof (finite closed set reaches a cycle; topological order of the finished list) + exhaustive schedule exploration",
     "assumptions": ["commands terminate"],
 }
